@@ -623,10 +623,29 @@ pub fn run(_params: &Params) {
           }
         }
       }
+      // ... or with the `type` of its subject as a one-element array
+      let mut subject_type_array = false;
+      if !subject_in_array && ctx::choose(10) == 0 {
+        if let Ok(mut v) = serde_json::from_str::<serde_json::Value>(&served_json) {
+          if let Some(t) = v.get("credentialSubject").and_then(|s| s.get("type")).filter(|t| t.is_string()).cloned() {
+            v["credentialSubject"]["type"] = serde_json::Value::Array(vec![t]);
+            served_json = v.to_string();
+            subject_type_array = true;
+            ctx::stat("fault.host.list_served_with_subject_type_in_array");
+          }
+        }
+      }
       let list_cred = match StatusList2021Credential::from_json(&served_json) {
         Ok(c) => c,
         Err(e) => {
-          if two_members {
+          if subject_type_array {
+            ctx::violation(
+              "C12",
+              "C12.reported_status",
+              "list-with-subject-type-as-one-element-array/not-readable",
+              format!("the status list credential served with the type of its subject as a one-element array is refused: {e}"),
+            );
+          } else if two_members {
             ctx::violation(
               "C12",
               "C12.reported_status",
@@ -735,6 +754,45 @@ pub fn run(_params: &Params) {
         );
       }
       let _ = matches!(r, Err(JwtValidationError::Revoked));
+    }
+  }
+
+  // ---- a status entry that points into a list of more than 2^32 entries (a list beyond 512 MiB is not simulated; what
+  // is checked is that the entry itself carries its index through reading and writing) ----
+  if ctx::choose(10) == 0 {
+    use identity_credential::revocation::status_list_2021::StatusList2021Entry;
+    let index: u64 = (1u64 << 32) + ctx::choose(1 << 20) as u64;
+    let as_number = ctx::choose(2) == 0;
+    let mut j = serde_json::json!({
+      "id": "https://status.example/lists/huge#94567",
+      "type": "StatusList2021Entry",
+      "statusPurpose": "revocation",
+      "statusListIndex": index.to_string(),
+      "statusListCredential": "https://status.example/lists/huge"
+    });
+    if as_number {
+      j["statusListIndex"] = serde_json::Value::from(index);
+    }
+    ctx::stat("probe.status_index_beyond_32_bits");
+    match serde_json::from_value::<StatusList2021Entry>(j) {
+      Err(e) => ctx::violation(
+        "C12",
+        "C12.reported_status",
+        "entry/index-beyond-32-bits-refused",
+        format!("a status entry with statusListIndex {index} (a list of more than 2^32 entries) is refused: {e}"),
+      ),
+      Ok(entry) => {
+        let back = serde_json::to_value(&entry).ok().and_then(|v| v.get("statusListIndex").cloned());
+        let back_n = back.as_ref().and_then(|b| b.as_str().and_then(|s| s.parse::<u64>().ok()).or(b.as_u64()));
+        if entry.index() as u64 != index || back_n != Some(index) {
+          ctx::violation(
+            "C12",
+            "C12.reported_status",
+            "entry/index-beyond-32-bits-changed",
+            format!("a status entry read with statusListIndex {index} reports index {} and writes {back:?}", entry.index()),
+          );
+        }
+      }
     }
   }
 
